@@ -184,14 +184,17 @@ def check(prop_id, tier, seed):
         with open(exp_path) as fh:
             expected = json.load(fh).get(prop_id, {})
     if os.environ.get("VERIF_RECORD_BASELINE"):
-        allexp = {}
-        if os.path.exists(exp_path):
-            with open(exp_path) as fh:
-                allexp = json.load(fh)
-        allexp[prop_id] = {"obligations": sorted(o["name"] for o in obligations if o["status"] == "discharged"),
-                           "functions": {k: v["sha256"] for k, v in functions.items()}}
-        with open(exp_path, "w") as fh:
-            json.dump(allexp, fh, indent=1, sort_keys=True)
+        import fcntl
+        with open(exp_path + ".lock", "w") as lk:
+            fcntl.flock(lk, fcntl.LOCK_EX)
+            allexp = {}
+            if os.path.exists(exp_path):
+                with open(exp_path) as fh:
+                    allexp = json.load(fh)
+            allexp[prop_id] = {"obligations": sorted(o["name"] for o in obligations if o["status"] == "discharged"),
+                               "functions": {k: v["sha256"] for k, v in functions.items()}}
+            with open(exp_path, "w") as fh:
+                json.dump(allexp, fh, indent=1, sort_keys=True)
         expected = allexp[prop_id]
     exp_names = set(expected.get("obligations", []))
     exp_funcs = expected.get("functions", {})
